@@ -167,6 +167,18 @@ impl<E> CQueue<E> {
 
             // find insert pos
 
+            // A refused `fetch_next_if` may have moved the scan window past `time`.
+            if time < self.t0 {
+                let k = time.as_nanos() / self.t_nanos;
+                let t0 = k * self.t_nanos;
+                self.head = index;
+                #[allow(clippy::cast_possible_truncation)]
+                {
+                    self.t0 = Duration::new((t0 / 1_000_000_000) as u64, (t0 % 1_000_000_000) as u32);
+                }
+                self.t1 = self.t0 + self.t;
+            }
+
             let id = self.event_id;
             self.buckets[index].add(event, time, id);
             self.event_id = id.wrapping_add(1);
@@ -243,6 +255,39 @@ impl<E> CQueue<E> {
             // Bucket is non-empty, thus pop-min returns a valid value.
             self.len -= 1;
             return unsafe { self.buckets[self.head].pop_min().unwrap_unchecked() };
+        }
+    }
+}
+
+impl<E> CQueue<E> {
+    /// Fetches the smallest event, but only if `pred` accepts its timestamp.
+    /// If `pred` rejects, the queue (including its notion of time) is unchanged.
+    ///
+    /// # Panics
+    ///
+    /// Panics if the queue is empty.
+    pub fn fetch_next_if(&mut self, pred: impl FnOnce(Duration) -> bool) -> Option<(E, Duration)> {
+        assert!(!self.is_empty(), "Cannot fetch from empty queue");
+
+        let next = if let Some((_, time, _)) = self.zero_event_bucket.front() {
+            *time
+        } else {
+            loop {
+                let min = self.buckets[self.head].front_time();
+                if self.buckets[self.head].is_empty() || min > self.t1 {
+                    self.head = (self.head + 1) % self.n;
+                    self.t0 += self.t;
+                    self.t1 += self.t;
+                    continue;
+                }
+                break min;
+            }
+        };
+
+        if pred(next) {
+            Some(self.fetch_next())
+        } else {
+            None
         }
     }
 }
